@@ -51,7 +51,31 @@ class Stuck(Exception):
 _SEQ = itertools.count(1)
 
 
+class E:
+    """An element identified by VALUE; the rig keeps no reference to the objects it puts (ephemeral mode), so an element
+    that was handed out or removed really is gone - a later element may get the same address."""
+    __slots__ = ("v",)
+
+    def __init__(self, v):
+        self.v = v
+
+    def __eq__(self, other):
+        return (other.v if isinstance(other, E) else other) == self.v
+
+    def __hash__(self):
+        return hash(self.v)
+
+    def __repr__(self):
+        return f"E({self.v})"
+
+
+def _val(x):
+    return x.v if isinstance(x, E) else x
+
+
 class Rig:
+    ephemeral = False
+
     def __init__(self, delay=D, instr: Instr | None = None):
         from watchdog.utils.delayed_queue import DelayedQueue
 
@@ -85,8 +109,7 @@ class Rig:
                 return
             rec = {"op": "get", "vt_call": self.clock.now, "seq": c, "seq_call": next(_SEQ)}
             try:
-                r = self.q.get()
-                rec["result"] = r
+                rec["result"] = _val(self.q.get())
             except BaseException as e:  # noqa: BLE001
                 rec["exc"] = repr(e)
             rec["vt_ret"] = self.clock.now
@@ -141,7 +164,7 @@ class Rig:
 
         def run():
             try:
-                rec["result"] = fn()
+                rec["result"] = _val(fn())
             except BaseException as e:  # noqa: BLE001
                 rec["exc"] = repr(e)
             rec["vt_ret"] = self.clock.now
@@ -160,7 +183,7 @@ class Rig:
         eid = self.next_id
         self.next_id += 1
         self.inserted[eid] = (self.clock.now, delayed)
-        rec = self.do("put", lambda: self.q.put(eid, delay=delayed), **kw)
+        rec = self.do("put", lambda: self.q.put(E(eid) if self.ephemeral else eid, delay=delayed), **kw)
         rec["elem"] = eid
         rec["delayed"] = delayed
         self.put_rec[eid] = rec
@@ -169,6 +192,41 @@ class Rig:
     def remove(self, target, **kw):
         rec = self.do("remove", lambda: self.q.remove(lambda e: e == target), **kw)
         rec["target"] = target
+        return rec
+
+    def replace(self, target, **kw):
+        """remove(target) and, with nothing allocated in between, put a brand-new delayed element (ephemeral mode: the new
+        object is likely to get the address of the one that has just gone)."""
+        eid = self.next_id
+        self.next_id += 1
+        self.inserted[eid] = (self.clock.now, True)
+        prec = {"op": "put", "vt_call": self.clock.now, "seq_call": None, "elem": eid, "delayed": True, "vt_ret": None, "seq_ret": None}
+        self.put_rec[eid] = prec
+
+        def fn():
+            x = self.q.remove(lambda e: e == target)
+            v = _val(x)
+            del x
+            self.q.put(E(eid) if self.ephemeral else eid, delay=True)
+            prec["seq_call"] = next(_SEQ)
+            prec["vt_ret"] = self.clock.now
+            prec["seq_ret"] = next(_SEQ)
+            with self.loglock:
+                self.log.append(prec)
+            return v
+
+        rec = self.do("remove", fn, **kw)
+        rec["target"] = target
+        return eid
+
+    def remove_raising(self, **kw):
+        """remove() with a predicate that raises on the first element it is shown: the error is the caller's, the queue must
+        stay usable."""
+        def bad(e):
+            raise ZeroDivisionError("predicate failed")
+
+        rec = self.do("remove", lambda: self.q.remove(bad), **kw)
+        rec["expected_exc"] = True
         return rec
 
     def close(self, **kw):
@@ -193,10 +251,10 @@ class Rig:
     def shutdown(self):
         self.cmd.put(None)
         if not self.q._closed:
-            try:
-                self.q.close()
-            except Exception:  # noqa: BLE001
-                pass
+            # in a helper thread: a queue whose lock was leaked would block the worker for ever
+            t = threading.Thread(target=lambda: self.q.close(), name="wdv-shutdown", daemon=True)
+            t.start()
+            t.join(1.0)
         self.clock.advance(1e6)
 
 
@@ -212,12 +270,16 @@ def run_script(b: Batch, script, hold_plan=None, instr=None, ctx=None):
     """script: list of ops.  Returns after judging.  Ops: ('put',delayed) ('get',) ('remove',k: k-th oldest live elem or -1 miss)
     ('adv',dt) ('close',)"""
     rig = Rig(instr=instr)
+    rig.ephemeral = bool((ctx or {}).get("ephemeral"))
+    if rig.ephemeral:
+        b.count("scripts_with_ephemeral_elements")
     concurrent = hold_plan is not None
     rs = {"kind": "script1", "script": script, "hold": hold_plan}
     wit = {"script": script, "hold": hold_plan, "ctx": ctx}
     b.case()
     reached = False
     closed = False
+    raised_pred = False
     live_model: list[int] = []  # inserted and not known handed out (driver's view, for choosing remove targets)
     arm_at = hold_plan.get("arm_at", 0) if hold_plan else None
     try:
@@ -236,6 +298,14 @@ def run_script(b: Batch, script, hold_plan=None, instr=None, ctx=None):
                     cands = [e for e in live_model if e not in done]
                     tgt = cands[op[1]] if 0 <= op[1] < len(cands) else -1
                     rig.remove(tgt, allow_blocked=ab)
+                elif op[0] == "remove_raise":
+                    raised_pred = True
+                    rig.remove_raising(allow_blocked=ab)
+                elif op[0] == "replace":
+                    done = {x for x, _, _ in handed_out(rig.log)}
+                    cands = [e for e in live_model if e not in done]
+                    tgt = cands[op[1]] if 0 <= op[1] < len(cands) else -1
+                    live_model.append(rig.replace(tgt, allow_blocked=ab))
                 elif op[0] == "adv":
                     rig.advance(op[1], allow_blocked=concurrent)
                 elif op[0] == "close":
@@ -297,6 +367,10 @@ def run_script(b: Batch, script, hold_plan=None, instr=None, ctx=None):
                             witness=dict(wit, log=_fmt(rig.log)), replay_spec=rs)
                 return
         except Stuck as e:
+            if raised_pred and not concurrent:
+                b.violation("queue-unusable-after-predicate-raised", f"after remove() was given a raising predicate the next operation never finished ({e}); script={script}",
+                            witness=dict(wit, log=_fmt(rig.log)), replay_spec=rs)
+                return
             b.inconc(f"C17 rig stuck ({e}); script={script} hold={hold_plan}")
             return
     finally:
@@ -309,7 +383,7 @@ def run_script(b: Batch, script, hold_plan=None, instr=None, ctx=None):
     # ---------------------------------------------------------------- offline checker
     errs = []
     for r in log:
-        if "exc" in r:
+        if "exc" in r and not (r.get("expected_exc") and "ZeroDivisionError" in r["exc"]):
             errs.append(("op-raised", f"{r['op']} raised {r['exc']}"))
     close_calls = [r["seq_call"] for r in log if r["op"] == "close"]
     for r in log:
@@ -476,7 +550,7 @@ def hold_script(r, role):
 
 
 def plan(tier, seed, jobs):
-    specs = []
+    specs = [{"kind": "bulk", "n": 40000 if tier == "quick" else 300000}]
     if tier == "quick":
         for a in range(len(ALPHA)):
             specs.append({"kind": "enum", "len": 4, "first": a})
@@ -493,6 +567,41 @@ def plan(tier, seed, jobs):
         for j in range(jobs * 3):
             specs.append({"kind": "holds", "n": 1500, "seed": seed, "j": j, "budget_s": 500})
     return specs
+
+
+def run_bulk(b: Batch, n):
+    """A producer far ahead of the consumer: tens of thousands of elements wait at once; every one comes out, in order."""
+    from watchdog.utils.delayed_queue import DelayedQueue
+
+    for delayed_every in (0, 7):
+        q = DelayedQueue(0.001)
+        for i in range(n):
+            q.put(i, delay=bool(delayed_every and i % delayed_every == 0))
+        got = []
+        done = threading.Event()
+
+        def consume():
+            for _ in range(n):
+                x = q.get()
+                if x is None:
+                    break
+                got.append(x)
+            done.set()
+
+        t = threading.Thread(target=consume, name="wdv-bulk-consumer", daemon=True)
+        t.start()
+        ok = done.wait(40)
+        q.close()
+        t.join(5)
+        b.case()
+        b.count("bulk_elements", n)
+        b.nontrivial(["bulk", n, delayed_every])
+        if not ok:
+            b.violation("lost-or-stuck", f"bulk: {n} elements were put, the consumer received {len(got)} and then blocked", witness={"n": n, "got": len(got)})
+        elif got != list(range(n)):
+            first_bad = next((i for i, x in enumerate(got) if x != i), len(got))
+            b.violation("lost-or-stuck" if len(got) < n else "order", f"bulk: {n} elements put, {len(got)} received; first difference at position {first_bad} (got {got[first_bad:first_bad + 3]})",
+                        witness={"n": n, "got": len(got)})
 
 
 def run_batch(spec):
@@ -513,7 +622,16 @@ def run_batch(spec):
             if b.expired():
                 break
             s = rand_script(r, r.randint(5, 30))
-            run_script(b, s)
+            run_script(b, s, ctx={"ephemeral": n % 3 == 1})
+            if n % 25 == 7:
+                # directed: the consumer waits on a delayed head; the head is removed and gone; a brand-new delayed element
+                # takes its place; the old head's delay ends - the newcomer must not come out before its own delay
+                for gap in (0.0, EPS, D / 2):
+                    run_script(b, [("put", True), ("get",), ("adv", D / 2), ("remove", 0), ("adv", gap), ("put", True), ("adv", D / 2 + EPS), ("adv", D)],
+                               ctx={"ephemeral": True})
+                    run_script(b, [("put", True), ("get",), ("adv", D / 2 - gap / 2), ("replace", 0), ("adv", D / 2 + EPS), ("adv", D)], ctx={"ephemeral": True})
+                run_script(b, [("put", False), ("put", True), ("remove_raise",), ("put", False), ("get",), ("remove", 0), ("adv", D)])
+                run_script(b, [("put", True), ("remove_raise",), ("adv", D), ("get",), ("put", True), ("close",)])
             if n == 0:
                 b.sample({"script": [list(x) for x in s], "mode": "random"})
     elif kind == "holds":
@@ -537,6 +655,8 @@ def run_batch(spec):
                     run_script(b, s, hold_plan=hp, instr=ins, ctx={"mode": "hold"})
                     if n == 1:
                         b.sample({"script": [list(x) for x in s], "hold": hp})
+    elif kind == "bulk":
+        run_bulk(b, spec.get("n", 40000))
     elif kind == "script1":
         s = [tuple(x) for x in spec["script"]]
         if spec.get("hold"):
